@@ -105,9 +105,14 @@ func H16c() {
 		{"leaf q10 { type enumeration { enum e1; enum e2 { value 99999999999; } } }", "enum", "e2"}, // bad enum value
 		{"leaf q11 { type int8 { range \"1..300\"; } }", "range", "1..300"},         // range wider than the parent
 		{"typedef q12 { type string; }\n typedef q12b { type q12 { length \"a..b\"; } }", "length", "a..b"}, // malformed length in a typedef
+		{"belongs-to q13 { prefix q; }", "belongs-to", "q13"}, // a substatement of submodules only, unknown in a module (KNOWN FINDING: reported at the module)
 	}
 	f := faults[symChoice(len(faults))]
 	where := symChoice(3) // at module top, inside a container, inside a grouping that is used
+	wrongKind := f.kw == "belongs-to"
+	if wrongKind {
+		assume(where == 0) // a module-level substatement
+	}
 	body := f.text
 	switch where {
 	case 1:
@@ -152,7 +157,7 @@ func H16c() {
 				}
 				i++
 			}
-			check(m[:i-1] == want, "a position in an error of building or resolving a module is the start of the statement the property names")
+			checkKF(m[:i-1] == want, "a position in an error of building or resolving a module is the start of the statement the property names", wrongKind, "wrong-kind-field-position")
 		}
 	}
 }
